@@ -12,6 +12,7 @@ import (
 	"io"
 	"strings"
 	"testing"
+	"time"
 
 	"cedarsim/hs"
 	"cedarsim/kernel"
@@ -24,8 +25,9 @@ import (
 type params struct {
 	CA, SA, CE, SE int // indexes into hs.Levels
 	Shape          int
-	Cipher         int // 0 common AES, 1 none in common
-	Cmd            int // command, or -1 for auth-only
+	Cipher         int   // 0 common AES, 1 none in common, 2 server [3DES,AES] vs client [AES], 3 both [AES,BLOWFISH,3DES]
+	Reuse          []int `json:"reuse,omitempty"` // config-reuse scenario: indices into reuseServerLists, one per successive handshake
+	Cmd            int   // command, or -1 for auth-only
 }
 
 type shape struct {
@@ -78,14 +80,24 @@ func closedClass(err error) bool {
 func run(s *kernel.Sim, c *scen.Case) {
 	var p params
 	c.P(&p)
+	if len(p.Reuse) > 0 {
+		runReuse(s, p)
+		return
+	}
 	hs.Init()
 	t := s.T
 	ctx := context.Background()
 	sh := shapes[p.Shape]
 	ca, sa, ce, se := hs.Levels[p.CA], hs.Levels[p.SA], hs.Levels[p.CE], hs.Levels[p.SE]
 	cciph, sciph := hs.AES, hs.AES
-	if p.Cipher == 1 {
+	switch p.Cipher {
+	case 1:
 		sciph = []security.CryptoMethod{security.CryptoBlowfish}
+	case 2: // a common cipher exists but is not the server's first
+		sciph = []security.CryptoMethod{security.Crypto3DES, security.CryptoAES}
+	case 3: // several common ciphers, the preferred (and only implemented) one first
+		cciph = []security.CryptoMethod{security.CryptoAES, security.CryptoBlowfish, security.Crypto3DES}
+		sciph = cciph
 	}
 	ccfg := hs.Cfg(ca, ce, sh.c, cciph, p.Cmd)
 	scfg := hs.Cfg(sa, se, sh.s, sciph, security.NoCommand)
@@ -147,7 +159,7 @@ func run(s *kernel.Sim, c *scen.Case) {
 		}
 	}
 	R, P, N := security.SecurityRequired, security.SecurityPreferred, security.SecurityNever
-	commonCipher := p.Cipher == 0
+	commonCipher := p.Cipher != 1
 	authReq := ca == R || sa == R
 	encReq := ce == R || se == R
 	authClash := (ca == R && sa == N) || (ca == N && sa == R)
@@ -232,11 +244,91 @@ func run(s *kernel.Sim, c *scen.Case) {
 	}
 }
 
+var reuseServerLists = [][]security.AuthMethod{{CTB}, {TOK}, {TOK, CTB}, {CTB, TOK}}
+
+// runReuse: ONE client SecurityConfig object (methods TOKEN and CLAIMTOBE, a valid token
+// held) is used for successive full handshakes against servers that list different
+// methods. Each handshake is judged on its own by the table: authentication REQUIRED on
+// both sides and a usable common method means it succeeds and authenticates with a method
+// both listed - whatever earlier handshakes did with the configuration.
+func runReuse(s *kernel.Sim, p params) {
+	hs.Init()
+	t := s.T
+	ctx := context.Background()
+	tw := hs.NewTokenWorld(t)
+	ccfg := hs.Cfg(security.SecurityRequired, security.SecurityOptional, []security.AuthMethod{TOK, CTB}, hs.AES, 60021)
+	ccfg.TrustDomain = tw.Issuer
+	ccfg.Token = tw.Token(hs.Now()-10, hs.Now()+3600)
+	ncfg := simnet.DrawConfig(t)
+	if ncfg.MaxLatency > 50*time.Millisecond {
+		ncfg.MaxLatency = 50 * time.Millisecond // three handshakes must fit into the token's lifetime
+	}
+	if ncfg.Window == 1 {
+		ncfg.Window = 64
+	}
+	net := simnet.New(s, ncfg)
+	s.Quantum, s.IdleMax = 3*time.Second, 1 // phases must not burn the token's lifetime while idling out
+	for i, li := range p.Reuse {
+		// a fresh cache each time: every handshake is a full one
+		ccfg.SessionCache = security.NewSessionCache()
+		list := reuseServerLists[li%len(reuseServerLists)]
+		scfg := hs.Cfg(security.SecurityRequired, security.SecurityOptional, list, hs.AES, security.NoCommand)
+		tw.ServerToken(scfg)
+		pr := hs.NewPair(net, i+1)
+		var cn, sn *security.SecurityNegotiation
+		var cerr, serr error
+		s.Go(fmt.Sprintf("client%d", i), func() {
+			cn, cerr = security.NewAuthenticator(ccfg, pr.CS).ClientHandshake(ctx)
+			pr.CE.Close()
+		})
+		s.Go(fmt.Sprintf("server%d", i), func() {
+			sn, serr = security.NewAuthenticator(scfg, pr.SS).ServerHandshake(ctx)
+			pr.SE.Close()
+		})
+		s.Run()
+		pr.CE.CloseQuiet()
+		pr.SE.CloseQuiet()
+		for _, tk := range s.Tasks() {
+			if tk.Panic != nil {
+				s.Violate("panic", "config-reuse", fmt.Sprintf("task %s: %v\n%s", tk.Name, tk.Panic, tk.Stack))
+				return
+			}
+		}
+		cell := fmt.Sprintf("handshake %d of %v with one client configuration [TOKEN,CLAIMTOBE] against a server listing %s", i+1, p.Reuse, hs.MethodsName(list))
+		sig := fmt.Sprintf("config-reuse/handshake%d/server=%s", i+1, hs.MethodsName(list))
+		if cerr != nil || serr != nil || cn == nil || sn == nil {
+			s.Violate("compatible-policies-failed", sig, fmt.Sprintf("%s: must succeed, but client err=%v server err=%v (client configuration now lists %s)", cell, cerr, serr, hs.MethodsName(ccfg.AuthMethods)))
+			return
+		}
+		if !sn.Authentication || !cn.Authentication {
+			s.Violate("authentication-did-not-run", sig, cell)
+			return
+		}
+		okm := false
+		for _, m := range list {
+			if m == sn.NegotiatedAuth && (m == TOK || m == CTB) {
+				okm = true
+			}
+		}
+		if !okm || cn.NegotiatedAuth != sn.NegotiatedAuth {
+			s.Violate("ends-disagree-on-method", sig, fmt.Sprintf("%s: client says %q server says %q", cell, cn.NegotiatedAuth, sn.NegotiatedAuth))
+			return
+		}
+	}
+	if got := hs.MethodsName(ccfg.AuthMethods); got != "TOKEN+CLAIMTOBE" {
+		s.Probe("client-configuration-changed-by-handshake")
+	}
+	s.Probe("config-reuse-sequence-ok")
+}
+
 var scenarios = []*scen.Scenario{
 	{Name: "matrix", Enumerated: true, Gen: func(g *scen.Gen) {
 		seed := g.Seed * 104729
 		for shi := range shapes {
-			for cipher := 0; cipher < 2; cipher++ {
+			for cipher := 0; cipher < 4; cipher++ {
+				if cipher >= 2 && shapes[shi].name != "equal-claimtobe" && shapes[shi].name != "disjoint" {
+					continue // the longer cipher lists run with one authenticating and one non-authenticating shape
+				}
 				for _, cmd := range []int{60021, -1} {
 					for ca := 0; ca < 4; ca++ {
 						for sa := 0; sa < 4; sa++ {
@@ -249,6 +341,20 @@ var scenarios = []*scen.Scenario{
 								}
 							}
 						}
+					}
+				}
+			}
+		}
+	}, Run: run},
+	{Name: "config-reuse", Enumerated: true, Gen: func(g *scen.Gen) {
+		seed := g.Seed * 611953
+		n := len(reuseServerLists)
+		for a := 0; a < n; a++ {
+			for b := 0; b < n; b++ {
+				for c := 0; c < n; c++ {
+					seed++
+					if !g.Emit(scen.Case{Seed: seed, Params: scen.Params(params{Reuse: []int{a, b, c}})}) {
+						return
 					}
 				}
 			}
